@@ -183,6 +183,8 @@ def run_check(prop: str, tier: str, seed: int, workers: int, segments: int | Non
                 "probes": dict(sorted(merged["probes"].items())),
                 "oracle_evaluations": dict(sorted(merged["oracle_evals"].items())),
                 "distinct_states": len(merged["states"]),
+                "state_measure": getattr(drv, "STATE_MEASURE", ""),
+                "interleaving_measure": "distinct_op_trigrams = distinct consecutive triples of op kinds executed",
                 "distinct_op_trigrams": len(merged["trigrams"]),
                 "known_findings_seen": dict(sorted(merged["known"].items())),
                 "components": drv.COMPONENTS,
